@@ -1,2 +1,3 @@
 import DefconModel.Drivers.Notify
 import DefconModel.Drivers.Layer
+import DefconModel.Drivers.Repr
